@@ -115,10 +115,15 @@ class TlcResult:
         self.pool = None
 
 
+import threading
+_stage_lock = threading.Lock()
+
+
 def stage_spec(run):
     d = run.path("spec")
-    if not os.path.isdir(d):
-        shutil.copytree(SPEC, d)
+    with _stage_lock:
+        if not os.path.isdir(d):
+            shutil.copytree(SPEC, d)
     return d
 
 
